@@ -2,12 +2,12 @@ SPECIFICATION Spec
 CONSTANTS
   EstimatorSet <- ThreeEstimators
   DistrictKinds <- BothKinds
-  EstimandSet <- VoteCounts
+  EstimandSet <- TwoCounts
   AlphaSet <- Alphas3
   AggSet <- Aggs4
   MaxEsts = 2
-  MaxAlphas = 3
-  MaxAggs = 4
+  MaxAlphas = 2
+  MaxAggs = 3
   Export = FALSE
   LoopOrder = "estimand_outer"
   CacheSlots = "per_alpha"
